@@ -1,5 +1,7 @@
 import KoordVerif.Model.C10
 import KoordVerif.Proofs.C10Policy
+import KoordVerif.Model.C10Exec
+import KoordVerif.Proofs.C10ExtExec
 /-
 C10 — property theorems (DESIGN.md §4 C10).  All amounts are milli-CPU integers.
 `FloatOK` lists the only facts assumed about the float64 computations (tested on every generated
@@ -1036,5 +1038,310 @@ example : roundStep exactOps ⟨[0, 1, 2, 3], [0, 1, 2, 3], [0, 1, 2, 3], 400000
     some ⟨[2, 3, 4], [2, 3, 4], [2, 3, 4], -1, true⟩ := by decide
 example : roundStep exactOps ⟨[2, 3, 4], [2, 3, 4], [2, 3, 4], -1, true⟩ (demoRound true 2500) =
     some ⟨[0, 1, 2, 3, 4, 5, 6], [0, 1, 2, 3, 4, 5, 6], [0, 1, 2, 3, 4, 5, 6], 250000, false⟩ := by decide
+
+
+/-! ### 16. the executor between the rounds and the files: cache, outside writers, late files (`roundStepX`) -/
+
+/-- the cache-free state a file-level state projects to: every level holds the BE root's set. -/
+def XState.proj (st : XState) (cur : Int) : RState :=
+  ⟨(rootOf st).getD [], (rootOf st).getD [], (rootOf st).getD [], cur, st.quotaRecovered⟩
+
+theorem recoverQuotaX_refines (sh : ExecShape) (hr : sh.recoverQuotaCacheable = false) (st : XState) (r : RState) (cur : Int)
+    (hcur : st.quota.content = some cur) (hq : r.quota = cur) (hf : r.quotaRecovered = st.quotaRecovered) :
+    (recoverQuotaX sh st).quota.content = some (recoverQuota r).quota ∧
+    (recoverQuotaX sh st).quotaRecovered = (recoverQuota r).quotaRecovered ∧
+    (recoverQuotaX sh st).quota.cache = st.quota.cache := by
+  unfold recoverQuotaX recoverQuota
+  cases hb : st.quotaRecovered with
+  | true =>
+    rw [hb] at hf
+    simp [hcur, hq, hf, hb]
+  | false =>
+    rw [hb] at hf
+    simp only [hf, Bool.false_eq_true, if_false, hr]
+    exact ⟨execWrite_direct_content _ _ _ cur hcur, trivial, execWrite_direct_cache _ _ _⟩
+
+/-- **the quota file does not depend on the executor cache**: with direct quota writes on both paths (the source), the
+    content of cpu.cfs_quota_us and the agent's recovered flag after a round are those of the cache-free model `roundStep`,
+    for EVERY cache state and every content an outside writer may have left in the file; the quota entry of the cache is
+    never created.  So every quota theorem about `roundStep` (round_quota_mode, round_cpuset_mode_quota, round_disabled)
+    speaks about the file. -/
+theorem quota_file_independent_of_cache (f : FloatOps) (sh : ExecShape) (ha : sh.adjustQuotaCacheable = false)
+    (hr : sh.recoverQuotaCacheable = false) (st : XState) (cur : Int) (hcur : st.quota.content = some cur) (i : RoundIn) :
+    ∃ st' r', roundStepX f sh st i = some st' ∧ roundStep f (st.proj cur) i = some r' ∧
+      st'.quota.content = some r'.quota ∧ st'.quotaRecovered = r'.quotaRecovered ∧ st'.quota.cache = st.quota.cache := by
+  unfold roundStepX roundStep
+  split
+  · exact ⟨_, _, rfl, rfl, hcur, rfl, rfl⟩
+  · split
+    · refine ⟨_, _, rfl, rfl, ?_⟩
+      obtain ⟨h1, h2⟩ := recoverCpusetX_quota sh 2 (recoverQuotaX sh st) i
+      obtain ⟨g1, g2, g3⟩ := recoverQuotaX_refines sh hr st (st.proj cur) cur hcur rfl rfl
+      rw [h1, h2]
+      have e1 : (recoverCpusetAll (recoverQuota (st.proj cur)) i).quota = (recoverQuota (st.proj cur)).quota := by
+        unfold recoverCpusetAll; split <;> rfl
+      have e2 : (recoverCpusetAll (recoverQuota (st.proj cur)) i).quotaRecovered = (recoverQuota (st.proj cur)).quotaRecovered := by
+        unfold recoverCpusetAll; split <;> rfl
+      rw [e1, e2]
+      exact ⟨g1, g2, g3⟩
+    · split
+      · exact ⟨_, _, rfl, rfl, hcur, rfl, rfl⟩
+      · split
+        · refine ⟨_, _, rfl, rfl, ?_⟩
+          obtain ⟨h1, h2⟩ := recoverCpusetX_quota sh 2 { (adjustQuotaX f sh st i) with quotaRecovered := false } i
+          rw [h1, h2]
+          have e1 : ∀ s : RState, (recoverCpusetAll s i).quota = s.quota := by
+            intro s; unfold recoverCpusetAll; split <;> rfl
+          have e2 : ∀ s : RState, (recoverCpusetAll s i).quotaRecovered = s.quotaRecovered := by
+            intro s; unfold recoverCpusetAll; split <;> rfl
+          rw [e1, e2]
+          unfold adjustQuotaX
+          simp only [hcur, XState.proj]
+          cases adjustQuota f i.budget cur i.capMilli with
+          | bypass => exact ⟨hcur, trivial, rfl⟩
+          | write q =>
+            simp only [ha]
+            exact ⟨execWrite_direct_content _ _ _ cur hcur, trivial, execWrite_direct_cache _ _ _⟩
+        · -- cpuset mode
+          have hp := adjustFull_no_panic f i.kp i.topoNil i.budget ((rootOf st).getD []).length i.procs i.pods i.reserved i.sysExcl
+          cases hro : rootOf st with
+          | none =>
+            simp only [adjustCpusetX, hro, XState.proj, Option.getD_none] at hp ⊢
+            cases hw : adjustFull f i.kp i.topoNil i.budget ([] : List Int).length i.procs i.pods i.reserved i.sysExcl with
+            | none => exact absurd hw hp
+            | some w =>
+              refine ⟨_, _, rfl, rfl, ?_⟩
+              exact recoverQuotaX_refines sh hr st _ cur hcur rfl rfl
+          | some old =>
+            simp only [hro, Option.getD_some] at hp
+            cases hw : adjustFull f i.kp i.topoNil i.budget old.length i.procs i.pods i.reserved i.sysExcl with
+            | none => exact absurd hw hp
+            | some w =>
+              have hx : ∃ st1, adjustCpusetX f sh st i = some st1 := by
+                unfold adjustCpusetX
+                simp only [hro, hw]
+                split
+                · exact ⟨_, rfl⟩
+                · split <;> exact ⟨_, rfl⟩
+              obtain ⟨st1, hst1⟩ := hx
+              obtain ⟨q1, q2⟩ := adjustCpusetX_quota f sh st st1 i hst1
+              simp only [hst1, XState.proj, hro, Option.getD_some, hw]
+              refine ⟨_, _, rfl, rfl, ?_⟩
+              have := recoverQuotaX_refines sh hr st1
+                { root := w.root.getD old, pod := w.pod.getD old, cont := w.cont.getD old, quota := cur, quotaRecovered := st.quotaRecovered }
+                cur (by rw [q1]; exact hcur) rfl (by rw [q2])
+              rw [q1] at this
+              exact this
+
+/-- **quota_round_writes_target_regardless_of_cache**: with the direct quota writes of the source, an acting quota-mode round
+    leaves in cpu.cfs_quota_us — whatever the executor cache holds and whatever an outside writer left in the file — a finite
+    quota that is the statement's `max(budget × 100, 2000)`; from an unset file always exactly that; otherwise possibly the
+    old value inside the 1 % band or one 10 % step above it. -/
+theorem quota_round_writes_target_regardless_of_cache (f : FloatOps) (hf : FloatOK f) (sh : ExecShape)
+    (ha : sh.adjustQuotaCacheable = false) (hr : sh.recoverQuotaCacheable = false)
+    (st : XState) (cur : Int) (hcur : st.quota.content = some cur) (hcur' : 0 ≤ cur ∨ cur = -1)
+    (i : RoundIn) (hact : i.acts) (hq : i.quotaMode = true) (hc : 1 ≤ coresOf i.capMilli) :
+    ∃ st' q, roundStepX f sh st i = some st' ∧ st'.quota.content = some q ∧ q ≠ -1 ∧
+      (cur = -1 → q = max (i.budget * 100) 2000) ∧
+      (q = max (i.budget * 100) 2000 ∨
+        (q = cur ∧ cur - max (i.budget * 100) 2000 < coresOf i.capMilli * 1000 ∧ max (i.budget * 100) 2000 - cur < coresOf i.capMilli * 1000) ∨
+        (q = cur + coresOf i.capMilli * 10000 ∧ q < max (i.budget * 100) 2000)) := by
+  obtain ⟨st', r', h1, h2, h3, _, _⟩ := quota_file_independent_of_cache f sh ha hr st cur hcur i
+  obtain ⟨r'', g1, g2, g3, g4, _⟩ := round_quota_mode f hf (st.proj cur) i hact hq hc hcur'
+  rw [h2] at g1
+  cases g1
+  exact ⟨st', r'.quota, h1, h3, g2, g3, g4⟩
+
+/-- the shape of seeded change C10-e: adjustByCfsQuota through the cacheable update, the recover path still direct. -/
+def cacheableQuotaShape : ExecShape := ⟨true, false, true, false⟩
+
+def runRounds (sh : ExecShape) (st : XState) : List RoundIn → Option XState
+  | [] => some st
+  | i :: is => (roundStepX exactOps sh st i).bind (fun s => runRounds sh s is)
+
+def demoX : XState := ⟨[⟨0, true, ⟨some [0, 1, 2, 3], none⟩⟩, ⟨1, true, ⟨some [0, 1, 2, 3], none⟩⟩], ⟨some (-1), none⟩, false⟩
+
+/-- the cacheable shape breaks the quota clause: cfsQuota (writes 250000, remembered) -> cpuset (the recover path writes −1
+    directly, the cache still says 250000) -> cfsQuota with the SAME budget: the write is suppressed, BE stays unlimited.
+    The source's shape ends the same history on 250000. -/
+theorem quota_cacheable_shape_counterexample :
+    (runRounds cacheableQuotaShape demoX [demoRound true 2500, demoRound false 2500, demoRound true 2500]).map (·.quota.content)
+      = some (some (-1)) ∧
+    (runRounds codeShape demoX [demoRound true 2500, demoRound false 2500, demoRound true 2500]).map (·.quota.content)
+      = some (some 250000) := by decide
+
+/-- same with an outside writer instead of the policy flip: two equal-target quota rounds, the file reset to −1 in between. -/
+theorem quota_cacheable_outside_reset_counterexample :
+    ((roundStepX exactOps cacheableQuotaShape demoX (demoRound true 2500)).bind
+        (fun s => roundStepX exactOps cacheableQuotaShape (extQuota s (-1)) (demoRound true 2500))).map (·.quota.content) = some (some (-1)) ∧
+    ((roundStepX exactOps codeShape demoX (demoRound true 2500)).bind
+        (fun s => roundStepX exactOps codeShape (extQuota s (-1)) (demoRound true 2500))).map (·.quota.content) = some (some 250000) := by decide
+
+/-- **cpuset_round_files_get_target**: cpuset mode, kubelet policy none, the selection is `cs`: every BE cgroup directory
+    that exists, has its cpuset.cpus file and whose cache entry (if any) is truthful ends the round holding exactly the
+    selection — in particular a file the executor has never written (no entry: a cgroup that appeared since the last round,
+    or whose earlier write attempts failed with the ignored "not exist" error). -/
+theorem cpuset_round_files_get_target (f : FloatOps) (sh : ExecShape) (hcb : sh.cpusetCacheable = true) (hci : sh.cacheOnIgnored = false)
+    (st : XState) (i : RoundIn) (hact : i.acts) (hq : i.quotaMode = false) (hk : i.kp = kpNone) (ht : i.topoNil = false)
+    (old cs : List Int) (hro : rootOf st = some old)
+    (hsel : adjustCPUSet f i.budget old.length i.procs i.pods i.reserved i.sysExcl = .write cs) :
+    ∃ st', roundStepX f sh st i = some st' ∧
+      ∀ (k : Nat) (x : XF), st.files[k]? = some x → x.listed = true → x.f.content.isSome → CacheOK x.f →
+        ∃ x' : XF, st'.files[k]? = some x' ∧ x'.f.content = some (canon cs) ∧ x'.level = x.level ∧ CacheOK x'.f := by
+  obtain ⟨h3, hn, hp, hm, hi⟩ := hact
+  have h1 : ¬ i.sloKind ≤ 1 := by omega
+  have h2 : ¬ i.sloKind = 2 := by omega
+  have h4 : (i.nodeNil || i.nPodMetas == 0 || !i.nodeMetric || i.infoMissing) = false := by simp [hn, hp, hm, hi]
+  have hns : ¬ (kpNone = kpStatic) := by decide
+  unfold roundStepX
+  simp only [h1, h2, h4, hq, if_false, Bool.false_eq_true, adjustCpusetX, hro, hk, ht, adjustFull_none, hsel, hns]
+  refine ⟨_, rfl, ?_⟩
+  intro k x hx hl hcont hc
+  have hfiles : (recoverQuotaX sh { st with files := writeCpusets sh (fun _ => some cs) (writeCpusets sh (fun _ => some (old ++ cs)) st.files) }).files
+      = writeCpusets sh (fun _ => some cs) (writeCpusets sh (fun _ => some (old ++ cs)) st.files) := by
+    unfold recoverQuotaX; split <;> rfl
+  rw [hfiles, writeCpusets_getElem?, writeCpusets_getElem?, hx]
+  refine ⟨_, rfl, ?_, ?_, ?_⟩
+  · apply writeOne_target sh _ _ cs
+    · rw [writeOne_listed]; exact hl
+    · rfl
+    · exact writeOne_content_some sh _ x hcont
+    · exact writeOne_cacheOK sh hcb hci _ x hc
+  · rw [writeOne_level, writeOne_level]
+  · exact writeOne_cacheOK sh hcb hci _ _ (writeOne_cacheOK sh hcb hci _ x hc)
+
+/-- **recover_round_files_get_recover_set**: a quota-mode round hands every existing BE cgroup file (all three levels) whose
+    cache entry is truthful — or absent — the recover set `calcBESet` (no reserved / system-exclusive / LSE-claimed CPU:
+    `recover_sound`). -/
+theorem recover_round_files_get_recover_set (f : FloatOps) (sh : ExecShape) (hcb : sh.cpusetCacheable = true) (hci : sh.cacheOnIgnored = false)
+    (st : XState) (i : RoundIn) (hact : i.acts) (hq : i.quotaMode = true) (ht : i.topoNil = false) :
+    ∃ st', roundStepX f sh st i = some st' ∧
+      ∀ (k : Nat) (x : XF), st.files[k]? = some x → x.listed = true → x.level ≤ 2 → x.f.content.isSome → CacheOK x.f →
+        ∃ x' : XF, st'.files[k]? = some x' ∧ x'.f.content = some (canon (calcBESet i.procs i.pods i.reserved i.sysExcl)) ∧ CacheOK x'.f := by
+  obtain ⟨h3, hn, hp, hm, hi⟩ := hact
+  have h1 : ¬ i.sloKind ≤ 1 := by omega
+  have h2 : ¬ i.sloKind = 2 := by omega
+  have h4 : (i.nodeNil || i.nPodMetas == 0 || !i.nodeMetric || i.infoMissing) = false := by simp [hn, hp, hm, hi]
+  unfold roundStepX
+  simp only [h1, h2, h4, hq, if_false, if_true, Bool.false_eq_true]
+  simp only [recoverCpusetX, hi, ht, Bool.or_self, if_false, Bool.false_eq_true]
+  refine ⟨_, rfl, ?_⟩
+  intro k x hx hl hlev hcont hc
+  have hfiles : (adjustQuotaX f sh st i).files = st.files := by
+    unfold adjustQuotaX; split
+    · rfl
+    · split <;> rfl
+  simp only [hfiles]
+  rw [writeCpusets_getElem?, hx]
+  refine ⟨_, rfl, ?_, ?_⟩
+  · apply writeOne_target sh _ _ _ hl
+    · simp [hlev]
+    · exact hcont
+    · exact hc
+  · exact writeOne_cacheOK sh hcb hci _ x hc
+
+/-- the shape of seeded change C10-f breaks the cpuset clause on a late file: the write attempt on the missing file is
+    remembered as done, the file appears holding 0-3 and the next round with the same target [0, 1] leaves it alone;
+    with the Set after the successful write only (the source) the same history ends on [0, 1] (`late_file_gets_target`). -/
+theorem cache_on_ignored_counterexample :
+    (execWrite true true { execWrite true true (⟨none, none⟩ : XFile (List Int)) [0, 1] with content := some [0, 1, 2, 3] } [0, 1]).content
+      = some [0, 1, 2, 3] ∧
+    (execWrite true false { execWrite true false (⟨none, none⟩ : XFile (List Int)) [0, 1] with content := some [0, 1, 2, 3] } [0, 1]).content
+      = some [0, 1] := by decide
+
+/-- what the cacheable cpuset batch of the SOURCE does not give: a file the agent has set and an outside writer widens
+    afterwards keeps the wide content in the next equal-target round (the cache suppresses the write) and gets it back only
+    when the force-update interval has passed.  Full file-level statement, false for the source:
+      ∀ histories with outside writers, after a cpuset-mode round every existing BE cgroup file holds the selection.
+    Proved part: `cpuset_round_files_get_target` under `CacheOK` (no outside writer since the agent's last write of that
+    value) and `execWrite_stale_rewritten` (after 60 s). -/
+theorem cacheable_outside_widen_counterexample :
+    let x1 := execWrite codeShape.cpusetCacheable codeShape.cacheOnIgnored (⟨some [0, 1, 2, 3], none⟩ : XFile (List Int)) [0, 1]
+    let x2 : XFile (List Int) := { x1 with content := some [0, 1, 2, 3] }
+    x1.content = some [0, 1] ∧
+    (execWrite codeShape.cpusetCacheable codeShape.cacheOnIgnored x2 [0, 1]).content = some [0, 1, 2, 3] ∧
+    (execWrite codeShape.cpusetCacheable codeShape.cacheOnIgnored x2.age [0, 1]).content = some [0, 1] := by decide
+
+/-- an IGNORED write error (cgroup directory / file missing) leaves the executor state — the cache in particular — exactly as
+    it was (the source's updateByCache returns before the Set; tie `tie_cache_set_after_write`). -/
+theorem ignored_error_leaves_cache (c : Bool) (x : XFile (List Int)) (v : List Int) (h : x.content = none) :
+    execWrite c codeShape.cacheOnIgnored x v = x := execWrite_missing_untouched c x v h
+
+/-- a BE cgroup file that is missing in one round and appears before the next with ANY content gets the (same) target then,
+    unless the executor was already suppressing that very value for the path. -/
+theorem late_cgroup_file_gets_target (x : XFile (List Int)) (v w : List Int) (hmiss : x.content = none) (hn : needUpdate x v = true) :
+    (execWrite true codeShape.cacheOnIgnored { execWrite true codeShape.cacheOnIgnored x v with content := some w } v).content = some v :=
+  late_file_gets_target x v w hmiss hn
+
+/-- once ResourceForceUpdateSeconds have passed the cache suppresses nothing: the file gets the target whatever it holds. -/
+theorem stale_entry_rewritten (coi : Bool) (x : XFile (List Int)) (v w c : List Int) (b : Bool) (h : x.content = some w)
+    (hs : x.cache = some (c, b)) : (execWrite true coi x.age v).content = some v :=
+  execWrite_stale_rewritten coi x.age v w c (by rw [age_content]; exact h) (age_stale x c b hs)
+
+/-- every round of the source's shape keeps every cpuset file's cache entry equal to the file (so, without outside writers,
+    the hypotheses `CacheOK` of the two file-level theorems above hold along the whole history). -/
+theorem rounds_keep_cache_truthful (f : FloatOps) (st st' : XState) (i : RoundIn) (hst : roundStepX f codeShape st i = some st')
+    (h : FilesOK st) : FilesOK st' := roundStepX_filesOK f codeShape rfl rfl st st' i hst h
+
+example : FilesOK demoX := by
+  intro x hx c b hc
+  simp only [demoX, List.mem_cons, List.mem_nil_iff, or_false] at hx
+  rcases hx with rfl | rfl <;> cases hc
+
+
+theorem adjustFull_static_write (f : FloatOps) (b : Int) (oldN : Nat) (procs : List Proc) (pods : List PodC) (res sys cs : List Int)
+    (hsel : adjustCPUSet f b oldN procs pods res sys = .write cs) :
+    adjustFull f kpStatic false b oldN procs pods res sys =
+      some ⟨some (calcBESet procs pods res sys), some (calcBESet procs pods res sys), some cs⟩ := by
+  unfold adjustFull
+  simp only [Bool.false_eq_true, if_false]
+  split
+  · rename_i h0
+    rw [none_eligible_untouched f b oldN procs pods res sys h0] at hsel
+    cases hsel
+  · rw [hsel]
+    have : ¬ (kpStatic = kpBad) := by decide
+    simp [this]
+
+/-- **static_round_files**: cpuset mode under the static kubelet policy with selection `cs`: every existing BE cgroup file with
+    a truthful (or no) cache entry ends the round on the recover set (BE root and pod level) resp. on the selection
+    (container level) — late container / pod cgroups included. -/
+theorem static_round_files (f : FloatOps) (sh : ExecShape) (hcb : sh.cpusetCacheable = true) (hci : sh.cacheOnIgnored = false)
+    (st : XState) (i : RoundIn) (hact : i.acts) (hq : i.quotaMode = false) (hk : i.kp = kpStatic) (ht : i.topoNil = false)
+    (old cs : List Int) (hro : rootOf st = some old)
+    (hsel : adjustCPUSet f i.budget old.length i.procs i.pods i.reserved i.sysExcl = .write cs) :
+    ∃ st', roundStepX f sh st i = some st' ∧
+      ∀ (k : Nat) (x : XF), st.files[k]? = some x → x.listed = true → x.f.content.isSome → CacheOK x.f →
+        ∃ x' : XF, st'.files[k]? = some x' ∧ CacheOK x'.f ∧
+          (x.level ≤ 1 → x'.f.content = some (canon (calcBESet i.procs i.pods i.reserved i.sysExcl))) ∧
+          (x.level = 2 → x'.f.content = some (canon cs)) := by
+  obtain ⟨h3, hn, hp, hm, hi⟩ := hact
+  have h1 : ¬ i.sloKind ≤ 1 := by omega
+  have h2 : ¬ i.sloKind = 2 := by omega
+  have h4 : (i.nodeNil || i.nPodMetas == 0 || !i.nodeMetric || i.infoMissing) = false := by simp [hn, hp, hm, hi]
+  unfold roundStepX
+  simp only [h1, h2, h4, hq, if_false, Bool.false_eq_true, adjustCpusetX, hro, hk, ht, adjustFull_static_write f _ _ _ _ _ _ cs hsel, if_true]
+  refine ⟨_, rfl, ?_⟩
+  intro k x hx hl hcont hc
+  rw [recoverQuotaX_files]
+  simp only []
+  rw [writeCpusets_getElem?, writeCpusets_getElem?, hx]
+  refine ⟨_, rfl, ?_, ?_, ?_⟩
+  · exact writeOne_cacheOK sh hcb hci _ _ (writeOne_cacheOK sh hcb hci _ x hc)
+  · intro hlev
+    have hne : ¬ (x.level = 2) := by omega
+    rw [writeOne_none sh (fun l => if l = 2 then some cs else none)]
+    · apply writeOne_target sh _ _ _ hl
+      · simp [hlev]
+      · exact hcont
+      · exact hc
+    · rw [writeOne_level]; simp [hne]
+  · intro hlev
+    have hne : ¬ (x.level ≤ 1) := by omega
+    rw [writeOne_none sh (fun l => if l ≤ 1 then some (calcBESet i.procs i.pods i.reserved i.sysExcl) else none) x (by simp [hne])]
+    apply writeOne_target sh _ _ _ hl
+    · simp [hlev]
+    · exact hcont
+    · exact hc
 
 end KoordVerif.C10
